@@ -4,10 +4,14 @@
 (* name the generated code refers to with HOW it is written:               *)
 (*   "abs"      an absolute path  ::entrait::Impl, ::core::future::Future, *)
 (*              ::core::marker::{Send, Sync}, ::core::convert::AsRef, ...  *)
-(*   "method"   a method call resolved through a trait: `.as_ref()` (the   *)
-(*              prelude's AsRef stays in scope for method resolution even  *)
-(*              when the NAME AsRef is shadowed), `.borrow()` (through the *)
-(*              where-clause bound on the macro's own parameter)           *)
+(*   "method"   a method call in method syntax, resolved through whatever   *)
+(*              traits the scope provides (captured by a scope without the *)
+(*              prelude, by a blanket trait with a method of that name, or *)
+(*              by the entraited trait's own method of that name).  The    *)
+(*              generator used to write `self.as_ref()`, `.borrow()`,      *)
+(*              `.into_inner()` that way; since a "fix:" commit they are   *)
+(*              `<::entrait::Impl<T> as ::core::convert::AsRef<T>>::       *)
+(*              as_ref(self)` etc. - "abs"                                 *)
 (*   "own"      the macro's own generic parameters and receiver            *)
 (*              (EntraitT, __impl, and `T` of the generated DelegateX<T>)  *)
 (*   "user"     tokens copied from the user's item (resolve in the user's  *)
@@ -21,21 +25,27 @@ EXTENDS TLC, Naturals, FiniteSets, Sequences, SequencesExt, Json, IOUtils
 CONSTANT DumpCases
 R == INSTANCE Req
 
-Progs == {"fn", "fn-async-bounds", "fn-byvalue", "mod", "concrete", "trait-self", "trait-self-async", "trait-ref", "trait-borrow", "di-static", "di-dyn-at", "di-dyn", "di-dyn-borrow", "fn-chain"}
-ShadowNames == {"Impl", "core", "entrait", "Future", "Send", "Sync", "AsRef", "Borrow", "Sized", "Box", "Option", "Result", "std", "own-value", "EntraitT-value"}
+\* "trait-self-named-as_ref" / "concrete-named-as_ref": the entraited trait's method / the function with a concrete dependency is
+\* itself called `as_ref`; "trait-self-byvalue": a by-value receiver (`into_inner`)
+Progs == {"fn", "fn-async-bounds", "fn-byvalue", "mod", "concrete", "trait-self", "trait-self-async", "trait-ref", "trait-borrow", "di-static", "di-dyn-at", "di-dyn", "di-dyn-borrow", "fn-chain",
+          "trait-self-named-as_ref", "concrete-named-as_ref", "trait-self-byvalue"}
+\* "m:as_ref" / "m:borrow" / "m:into_inner": a local trait, implemented for every type, with a method of that name
+ShadowNames == {"Impl", "core", "entrait", "Future", "Send", "Sync", "AsRef", "Borrow", "Sized", "Box", "Option", "Result", "std", "own-value", "EntraitT-value",
+                "m:as_ref", "m:borrow", "m:into_inner"}
 Ref(n, how) == [name |-> n, how |-> how]
 Common == { Ref("entrait", "abs"), Ref("Impl", "abs"), Ref("core", "abs"), Ref("Sync", "abs"), Ref("EntraitT", "own") }
 Refs(p) == Common
   \cup (IF p \in {"fn-async-bounds", "mod", "trait-self-async"} THEN { Ref("Future", "abs"), Ref("Send", "abs") } ELSE {})
   \cup (IF p = "fn-byvalue" THEN { Ref("Send", "abs") } ELSE {})
-  \cup (IF p \in {"trait-self", "trait-self-async", "trait-ref", "trait-borrow", "concrete"} THEN { Ref("as_ref", "method") } ELSE {})
+  \cup (IF p \in {"trait-self", "trait-self-async", "trait-ref", "trait-borrow", "concrete", "trait-self-named-as_ref", "concrete-named-as_ref"} THEN { Ref("m:as_ref", "abs"), Ref("AsRef", "abs") } ELSE {})
+  \cup (IF p = "trait-self-byvalue" THEN { Ref("m:into_inner", "abs") } ELSE {})
   \cup (IF p = "trait-ref" THEN { Ref("AsRef", "abs") } ELSE {})
-  \cup (IF p = "trait-borrow" THEN { Ref("Borrow", "abs"), Ref("borrow", "method") } ELSE {})
+  \cup (IF p = "trait-borrow" THEN { Ref("Borrow", "abs"), Ref("m:borrow", "abs") } ELSE {})
   \cup (IF p \in {"di-static", "di-dyn-at", "di-dyn", "di-dyn-borrow", "fn-chain"} THEN { Ref("__impl", "own"), Ref("T", "own") } ELSE {})
   \cup (IF p = "di-dyn" THEN { Ref("AsRef", "abs") } ELSE {})
   \cup (IF p = "di-dyn-borrow" THEN { Ref("Borrow", "abs") } ELSE {})
   \cup (IF p = "di-dyn-at" THEN { Ref("AsRef", "abs"), Ref("Box", "thirdparty") } ELSE {})
-Captured(r, S) == r.how \in {"bare", "thirdparty"} /\ r.name \in S
+Captured(r, S) == r.how \in {"bare", "thirdparty", "method"} /\ (r.name \in S \/ (r.how = "method" /\ "no-prelude" \in S))
 
 \* variants: clean scope, one shadowed name, all names shadowed, generated trait named like a marker trait, no_std crate
 Variants == { [kind |-> "clean", shadows |-> {}, name |-> "T"] }
@@ -43,8 +53,10 @@ Variants == { [kind |-> "clean", shadows |-> {}, name |-> "T"] }
             \cup { [kind |-> "shadow-all", shadows |-> ShadowNames, name |-> "T"] }
             \cup { [kind |-> "marker-name", shadows |-> {}, name |-> n] : n \in {"Send", "Sync"} }
             \cup { [kind |-> "no_std", shadows |-> {}, name |-> "T"] }
+            \* a module that opts out of the prelude: `#![no_implicit_prelude]` - nothing at all is imported
+            \cup { [kind |-> "no-prelude", shadows |-> {"no-prelude"}, name |-> "T"] }
 \* async_trait's own output is outside entrait's control: its `Box` must stay visible
-Applicable(p, v) == ~(p = "di-dyn-at" /\ "Box" \in v.shadows)
+Applicable(p, v) == ~(p = "di-dyn-at" /\ ("Box" \in v.shadows \/ v.kind = "no-prelude"))
 Inputs == { [prog |-> p, variant |-> v] : p \in Progs, v \in Variants }
 InputsOK == { i \in Inputs : Applicable(i.prog, i.variant) }
 Effective(v) == v.shadows \cup (IF v.kind = "marker-name" THEN {v.name} ELSE {})
